@@ -1,7 +1,9 @@
 import corpus
 
 PLAN_QUICK = [("buf", ["bufA1", "bufA3", "bufB1"])]
-PLAN_THOROUGH = [("buf", ["bufA1", "bufA3", "bufB1"]), ("conv", ["bufA1", "bufB1"]), ("core", ["bufA3"])]
+# ("core", ["bufA3"]) was part of this plan and was removed: see DESIGN.md section 0 (the loop-exclusion reference does not model the
+# vetoing attachments of that configuration exactly for grammars that were not generated for buffer runs; real non-terminating runs were not excluded)
+PLAN_THOROUGH = [("buf", ["bufA1", "bufA3", "bufB1"]), ("conv", ["bufA1", "bufB1"])]
 
 
 def units(tier, seed):
